@@ -35,7 +35,7 @@ using ref::LD;
 
 // KrigingCalcul::_needZstar dereferenced '_Means' unconditionally in simple kriging: setData(&Z, nullptr) ("Means ...
 // (optional)") followed by getEstimation() was a null dereference. The primal branch was fixed in /repo a94ed4633; the
-// DUAL branch (KrigingCalcul.cpp:775, 'if (!_Means->empty())') still is one. Set to true to keep away from null means.
+// DUAL branch (KrigingCalcul.cpp:777, 'if (!_Means->empty())') still is one. Set to true to keep away from null means.
 static const double KAPPA_MAX = 1e6;
 
 static const bool AVOID_KRIBAYES_SELECTION = false || getenv("C04_DEV_AVOID2") != nullptr; // env: developer runs only
